@@ -165,9 +165,9 @@ def main(tier):
     rnd = core.rng_for("c03main", ck.seed, tier)
     quick = tier == "quick"
     jobs = []
-    for i in range(250 if quick else 8000):
+    for i in range(1000 if quick else 12000):
         jobs.append((built, "gen", ck.seed, i, None))
-    for i in range(250 if quick else 8000):
+    for i in range(1000 if quick else 12000):
         jobs.append((built, "genmut", ck.seed, i, None))
     for i, n in enumerate([1200, 2500] if quick else [1200, 2500, 4000, 6000, 1500, 3000]):
         jobs.append((built, "big", ck.seed, i, n))
